@@ -15,6 +15,11 @@
 // The item in progress is published through a shared page, the worker flushes stdout before it touches an item,
 // so output of earlier items is never lost.  A worker that does not finish an item within `itemTimeout` seconds
 // is killed and reported as timeout.
+//
+// Note: do NOT fork once per item with an ASan build - a fork of an ASan process costs ~0.2 s of system time here
+// (shadow page tables).  One worker per crash is what makes this cheap.  Run the driver with
+// ASAN_OPTIONS quarantine_size_mb=1:malloc_context_size=0 (engines/forkbatch.py: asan_env): with the default 256 MB
+// quarantine an allocation-heavy item loop never reuses memory and spends most of its time in page faults.
 #ifndef VP_FORKBATCH_HPP
 #define VP_FORKBATCH_HPP
 
